@@ -639,10 +639,11 @@ class IH5Group(IH5InnerNode):
         name: str = kwargs.pop("name", src_node.name.split("/")[-1])
         dst_name: str
         if isinstance(dest, str):
-            # if dest is a path, ignore inferred/passed name
-            segs = self._abs_path(dest).split("/")
-            dst_group = self.require_group("/".join(segs[:-1]) or "/")
-            dst_name = segs[-1]
+            # if dest is a path, ignore inferred/passed name.
+            # copy relative to the root, so that missing parent groups are created
+            # only after the source was traversed (they could be located inside of it)
+            dst_group = self["/"]
+            dst_name = self._abs_path(dest).strip("/")
         else:
             # given dest is a group node, use inferred/passed name
 
